@@ -120,8 +120,8 @@ for tag in ('f32', 'u32', 'f64', 'i32'):
             mkA, mkB = mat_make(C_, R_, tag, 'a'), mat_make(C_, R_, tag, 'b')
 
             def el(op, x, y):
-                if isf and op in ('*', '/'):
-                    return 'SPEC_F%s%s(%s, %s)' % ('MUL' if op == '*' else 'DIV', '32' if tag == 'f32' else '64', x, y)
+                if isf:
+                    return 'SPEC_F%s%s(%s, %s)' % ({'*': 'MUL', '/': 'DIV', '+': 'ADD', '-': 'SUB'}[op], '32' if tag == 'f32' else '64', x, y)
                 return '(%s %s %s)' % (x, op, y) if isf else '(u32)(%s %s %s)' % (x, op, y)
             for nm, expr, op in (('compMult', 'glm::matrixCompMult(%s, %s)' % (mkA, mkB), '*'), ('add', '%s + %s' % (mkA, mkB), '+'), ('sub', '%s - %s' % (mkA, mkB), '-')):
                 name = 'glm_%s_m%dx%d_%s' % (nm, C_, R_, tag)
@@ -191,7 +191,7 @@ for name, dr in D.items():
 for fn, real, kw in contracts:
     kw.setdefault('timeout', 120)
     if kw.get('kind') == 'F':
-        kw.setdefault('uf_float', ('fmul', 'fdiv'))   # element-wise float products/quotients: same operation on the same operands
+        kw.setdefault('uf_float', ('fmul', 'fdiv', 'fadd', 'fsub'))   # element-wise float products/quotients: same operation on the same operands
     P.contract(fn, real, **kw)
 
 P.level_text = ('for all nine shapes: uint32 matrices (ring Z/2^32: exact) are proved equal to the textbook column-major definitions for all entry '
